@@ -61,9 +61,14 @@ PLAN["C13"] = dict(
     level="proof",
 )
 
+PLAN["C17"] = dict(
+    verus=dict(quick=["time"], thorough=["time"]),
+    kani=dict(quick=["time_delta_group", "time_delta_scaling"], thorough=["time_delta_group", "time_delta_scaling", "time_delta_scaling_k3"]),
+    level="proof",
+)
 PLAN["C16"] = dict(
     verus=dict(quick=["time"], thorough=["time"]),
-    kani=dict(quick=[], thorough=[]),
+    kani=dict(quick=["time_nat", "time_unit_identity"], thorough=["time_nat", "time_unit_identity"]),
     level="proof",
 )
 
